@@ -202,6 +202,11 @@ pub fn check(c: &Case) -> Verdict {
     let mut want = vec![];
     norm_of(&c.events, &mut want);
     let want = coalesce(want);
+    if bytes.starts_with(&[0xEF, 0xBB, 0xBF]) {
+        // a U+FEFF at the very start of the written document is a byte-order mark for the reader
+        // (documented); anywhere else it is an ordinary character of the payload
+        return Verdict::excluded("document-starts-with-u+feff");
+    }
     let got = match read_back(&bytes) {
         Ok(g) => coalesce(g),
         Err(m) => return Verdict::fail(format!("{} | written: {:?}", m, B::show(&bytes))),
